@@ -1390,6 +1390,10 @@ func (repo *Repository) migrate(ctx context.Context) error {
 		return repo.initializeWithGenesis()
 	}
 
+	// The migrated headers are pruned from memory later, so they must be in the larger map to still
+	// be found by hash.
+	repo.loadBranchHashHeights(ctx, branch)
+
 	logger.InfoWithFields(ctx, []logger.Field{
 		logger.Stringer("latest_block_hash", branch.Last().Hash),
 		logger.Int("latest_block_height", branch.Height()),
